@@ -802,26 +802,31 @@ lb_page_up_stub = _page_stub("_keypress_page_up")
 lb_page_down_stub = _page_stub("_keypress_page_down")
 
 
-def _max_effects(old, s, a, result):
-    st = cur()
-    st.ghost["updown_before"] = walker_focus(s)
-    PROTOCOLS["ListWalker"].bump(st, s._body)
+def _max_callee_side(reverse, valign):
+    def effects(old, s, a, result):
+        st = cur()
+        st.ghost["updown_before"] = (walker_focus(s), _has_positions(s), _first_position(s, reverse))
+        PROTOCOLS["ListWalker"].bump(st, s._body)
+
+    def ensures_callee(old, s, a, result):
+        was, has, first = cur().ghost["updown_before"]
+        now = walker_focus(s)
+        yield "handled-iff-the-walker-lists-its-positions", both(either(V.opt_isnone(result), V.opt_eq(result, True)), eq(V.opt_isnone(result), has))
+        yield "still-a-focus", neg(mk_bool(now[0].isnone))
+        # (nothing is written on the unhandled path: in particular no pending change appears)
+        yield "unhandled-nothing-changed", implies(V.opt_eq(result, True), both(now[1] == was[1], V.opt_eq(now[0], was[0]), implies(V.opt_isnone(old.set_focus_pending), V.opt_isnone(s.set_focus_pending)),
+                                                                              implies(V.opt_isnone(old.set_focus_valign_pending), V.opt_isnone(s.set_focus_valign_pending))))
+        vp = s.set_focus_valign_pending
+        yield "handled-focus-on-the-first-position-listed-alignment-pending", implies(V.opt_isnone(result), both(now[1] == first, neg(V.opt_isnone(s.set_focus_pending)), neg(V.opt_isnone(vp)), val(vp)[0] == valign))
+        yield "scroll-state-untouched", same_scroll_state(s, old)
+
+    return effects, ensures_callee
 
 
-def _max_ensures_callee(old, s, a, result):
-    was = cur().ghost["updown_before"]
-    now = walker_focus(s)
-    yield "handled-or-not", either(V.opt_isnone(result), V.opt_eq(result, True))
-    yield "still-a-focus", neg(mk_bool(now[0].isnone))
-    # (nothing is written on that path: in particular no pending change appears)
-    yield "unhandled-nothing-changed", implies(V.opt_eq(result, True), both(now[1] == was[1], V.opt_eq(now[0], was[0]), implies(V.opt_isnone(old.set_focus_pending), V.opt_isnone(s.set_focus_pending)),
-                                                                          implies(V.opt_isnone(old.set_focus_valign_pending), V.opt_isnone(s.set_focus_valign_pending))))
-    yield "scroll-state-untouched", same_scroll_state(s, old)
-
-
-for _c in (lb_keypress_max_left, lb_keypress_max_right):
-    type(_c).effects = staticmethod(_max_effects)
-    type(_c).ensures_callee = staticmethod(_max_ensures_callee)
+for _c, _rev, _va in ((lb_keypress_max_left, False, "top"), (lb_keypress_max_right, True, "bottom")):
+    _eff, _ens = _max_callee_side(_rev, _va)
+    type(_c).effects = staticmethod(_eff)
+    type(_c).ensures_callee = staticmethod(_ens)
     type(_c).on_raise_callee = staticmethod(lambda old, s, a, exc: [("scroll-state-untouched", same_scroll_state(s, old))])
 
 NAV = ("cursor up", "cursor down", "cursor page up", "cursor page down", "cursor max left", "cursor max right")
@@ -911,6 +916,11 @@ class lb_keypress:
                                                                                               both(lb_ok(s), neg(mk_bool(now[0].isnone)), either(s.offset_rows < maxrow, same_scroll_state(s, old), no_rows)))
         home_end = either(cmd == "cursor max left", cmd == "cursor max right")
         yield "after-home-or-end-the-scroll-state-is-untouched", implies(home_end, same_scroll_state(s, old))
+        vp = s.set_focus_valign_pending
+        for c, reverse, valign in (("cursor max left", False, "top"), ("cursor max right", True, "bottom")):
+            first = _first_position(old, reverse)
+            yield f"{valign}-of-the-list-takes-the-focus-alignment-pending", implies(cmd == c, ite(_has_positions(old), both(V.opt_isnone(result), now[1] == first, neg(V.opt_isnone(s.set_focus_pending)),
+                                                                                                                              neg(V.opt_isnone(vp)), val(vp)[0] == valign), V.opt_eq(result, key2)))
 
     def on_raise(old, s, a, exc):
         was = walker_focus(old, "entry")
